@@ -156,3 +156,29 @@ Definition CPSRWriteByInstr (x : sysctx) (cpsr value bytemask excp : Z) : Z :=
 (* the same function as one masked merge (proved equal in Proofs/ArchFacts.v) *)
 Definition CPSRWriteByMask (x : sysctx) (cpsr value bytemask excp : Z) : Z :=
   merge cpsr value (cpsr_write_mask x cpsr value bytemask excp).
+
+(* ---------- A2.3.1 writes to the PC ---------- *)
+Definition InstrSet_JAZELLE := 2. Definition InstrSet_THUMBEE := 3.
+Definition clear_low (addr n : Z) : Z := insert addr (n - 1) 0 0.       (* addr<n-1:0> := 0 *)
+Definition with_iset (cpsr iset : Z) : Z := insert (insert cpsr 24 24 (bit iset 1)) 5 5 (bit iset 0).
+Definition iset_of_psr (cpsr : Z) : Z := bit cpsr 24 * 2 + bit cpsr 5.
+(* each returns the new CPSR and the branch target; None = UNPREDICTABLE, where the code documents "no effect" *)
+Definition BranchWritePC (cpsr jazelle_accepts addr : Z) : Z * option Z :=
+  let iset := iset_of_psr cpsr in
+  if iset =? InstrSet_ARM then (cpsr, Some (clear_low addr 2))
+  else if iset =? InstrSet_JAZELLE then (cpsr, Some (if jazelle_accepts =? 0 then clear_low addr 2 else addr))
+  else (cpsr, Some (clear_low addr 1)).
+Definition SelectInstrSet (cpsr iset : Z) : Z :=
+  if (iset =? InstrSet_ARM) && (iset_of_psr cpsr =? InstrSet_THUMBEE) then cpsr else with_iset cpsr iset.
+Definition BXWritePC (cpsr addr : Z) : Z * option Z :=
+  if iset_of_psr cpsr =? InstrSet_THUMBEE then
+    (if bit addr 0 =? 1 then (cpsr, Some (clear_low addr 1)) else (cpsr, None))
+  else if bit addr 0 =? 1 then (SelectInstrSet cpsr InstrSet_THUMB, Some (clear_low addr 1))
+  else if bit addr 1 =? 0 then (SelectInstrSet cpsr InstrSet_ARM, Some addr)
+  else (cpsr, None).
+Definition ALUWritePC (arch cpsr jaz addr : Z) : Z * option Z :=
+  if (arch >=? 7) && (iset_of_psr cpsr =? InstrSet_ARM) then BXWritePC cpsr addr else BranchWritePC cpsr jaz addr.
+Definition LoadWritePC (arch cpsr jaz addr : Z) : Z * option Z :=
+  if arch >=? 5 then BXWritePC cpsr addr else BranchWritePC cpsr jaz addr.
+(* the value read from R15 *)
+Definition PCRead (cpsr pc : Z) : Z := (pc + (if iset_of_psr cpsr =? InstrSet_ARM then 8 else 4)) mod 2 ^ 32.
